@@ -91,6 +91,13 @@ type verr string
 
 func (e verr) Error() string { return string(e) }
 
+// an error that is a Stringer as well: Repr asks String() when the value itself is handed over, Error() when
+// it is reached through pointers (reprOfValue tests error first); fmt's %v prefers Error()
+type errstr struct{ s string }
+
+func (e errstr) Error() string  { return "E:" + e.s }
+func (e errstr) String() string { return "S:" + e.s }
+
 type pair struct {
 	A int
 	B string
@@ -142,6 +149,15 @@ func mk(v Val) any {
 		return &ps
 	case "nil":
 		return nil
+	case "nilptr": // a typed nil pointer is not nil: printed by fmt.Sprint
+		var p *int
+		return p
+	case "errstr":
+		return errstr{v.V}
+	case "pperrstr":
+		e := errstr{v.V}
+		pe := &e
+		return &pe
 	case "pint": // a pointer is dereferenced
 		n := int(i64())
 		return &n
@@ -382,7 +398,9 @@ func main() {
 	defer w.Close()
 	initWheel()
 	for _, c := range cases {
-		if c.Kind == "repr" {
+		if c.Kind == "consts" {
+			w.Put(runConsts(c))
+		} else if c.Kind == "repr" {
 			w.Put(runRepr(c))
 		} else if c.Kind == "hashfn" {
 			w.Put(runHashFn(c))
